@@ -438,7 +438,7 @@ func runC04(p *Prog, r *Report, tier string) {
 			via := c.viaAnchors([]ssa.Instruction{mint})
 			leak := len(via) == 0
 			for _, s := range c.successReturns() {
-				if fi.blockReachesAvoiding(start, s, via) {
+				if fi.blockReachesAvoiding(start, c.siteInFn(s), via) {
 					leak = true
 				}
 			}
